@@ -18,6 +18,7 @@ package simrt
 import (
 	"fmt"
 	"iter"
+	"os"
 	"reflect"
 	"runtime"
 	"sort"
@@ -128,6 +129,16 @@ type Run struct {
 }
 
 var cur *Run
+
+// SIMRT_POLICY puts the seam in a fixed mode for a whole process (used by the
+// equivalence self-test, which runs the repository's own test suite on the
+// instrumented copy): canonical | reverse | shuffle. Unset = pass-through.
+func init() {
+	if p := os.Getenv("SIMRT_POLICY"); p != "" {
+		r := &Run{Sched: Schedule{Default: ParsePolicy(p), Seed: 7}, MaxTicks: 1 << 62, MaxDepth: 1 << 30}
+		Begin(r)
+	}
+}
 
 // Begin makes r the run in progress. End must be called (defer) when it is over.
 func Begin(r *Run) {
